@@ -62,7 +62,7 @@ CFG = dict(
     ],
     assumptions=["float64 arithmetic in Go on amd64 is IEEE-754 without FMA contraction"],
     manifest=dict(
-        text="All 7 primitive shapes, every one for all parameters (rounded cone incl. nested/tangent balls and a = b: the source's early return of the larger ball, added after this proof showed the bare formula wrong there). Lean 4 theorems over ℝ about the SDF closures regenerated from math/sdf/*.go and line3D.go on every run: sign and zero set: geometric characterisation for sphere, plane, box, capsule, rounded cone (the closure equals a 2-D profile of cylindrical coordinates — two sphere caps and a slanted side separated by one affine functional, branch tests shown exactly equivalent — and is the minimum over t∈[0,1] of |p − (a+t(b−a))| − (r1+t(r2−r1)); negative exactly in the union of these open balls = convex hull of the two open end balls; VarryingThicknessLine = Union of rounded cones inherits sign and Lipschitz) and the un-rounded cylinder (rounded box / rounded cylinder: negative exactly where the 1-Lipschitz core field is below the rounding radius); 1-Lipschitz bound for all of these (|f p − f q| ≤ |p − q|, proved through Mathlib's Euclidean space; box/rounded box/rounded cylinder via a 1-Lipschitz signed distance to the orthant with an intermediate-value argument; capsule via the minimising property of the clamped projection; rounded cone as a minimum of 1-Lipschitz ball gaps), exact distance (sphere, plane, box, capsule: both directions — |f p| ≤ |p − s| for every surface point s and some surface point at distance exactly |f p|, for every p incl. interior and on-axis points; rounded cone: lower bound, and attained outside the shape); rounded box = Minkowski sum of the box with the open ball of the rounding radius, union/intersection/subtraction sign laws and Lipschitz closure for any number of operands, translation. Regenerated definitions run at Float and compared bit-for-bit with the Go closures; reference-distance oracles on the Go outputs.",
+        text="All 7 primitive shapes. Parameter ranges: sphere, box, rounded box, rounded cylinder and the rounded cone's sign / zero-set / Lipschitz theorems hold for ALL parameters (rounded cone incl. nested/tangent balls and a = b: the source's early return of the larger ball, added after this proof showed the bare formula wrong there; its convex-hull form needs radii > 0 and 'attained outside' radii >= 0); the capsule theorems need a non-degenerate segment a ≠ b (Go returns NaN for a = b) and, for the attained direction, radius >= 0; the plane's Lipschitz and exact-distance theorems need a unit normal; box 'attained' needs non-negative sizes. Lean 4 theorems over ℝ about the SDF closures regenerated from math/sdf/*.go and line3D.go on every run: sign and zero set: geometric characterisation for sphere, plane, box, capsule, rounded cone (the closure equals a 2-D profile of cylindrical coordinates — two sphere caps and a slanted side separated by one affine functional, branch tests shown exactly equivalent — and is the minimum over t∈[0,1] of |p − (a+t(b−a))| − (r1+t(r2−r1)); negative exactly in the union of these open balls = convex hull of the two open end balls; VarryingThicknessLine = Union of rounded cones inherits sign and Lipschitz) and the un-rounded cylinder (rounded box / rounded cylinder: negative exactly where the 1-Lipschitz core field is below the rounding radius); 1-Lipschitz bound for all of these (|f p − f q| ≤ |p − q|, proved through Mathlib's Euclidean space; box/rounded box/rounded cylinder via a 1-Lipschitz signed distance to the orthant with an intermediate-value argument; capsule via the minimising property of the clamped projection; rounded cone as a minimum of 1-Lipschitz ball gaps), exact distance (sphere, plane, box, capsule: both directions — |f p| ≤ |p − s| for every surface point s and some surface point at distance exactly |f p|, for every p incl. interior and on-axis points; rounded cone: lower bound, and attained outside the shape); rounded box = Minkowski sum of the box with the open ball of the rounding radius, union/intersection/subtraction sign laws and Lipschitz closure for any number of operands, translation. Regenerated definitions run at Float and compared bit-for-bit with the Go closures; reference-distance oracles on the Go outputs.",
         note="Trusted: Lean kernel; propext/Classical.choice/Quot.sound; translator and vector table; hand models of Union/Intersect and of the VarryingThicknessLine loop (both corresponded bit for bit); harness; reference SDFs in the driver. Not proved: exact distance attained for interior points of the rounded cone (not claimed by the property); Minkowski reading of the rounded cylinder; IEEE rounding.",
         technique="Lean 4 proof over a model regenerated from source (translator) + Float bit-exact correspondence"),
 )
